@@ -41,9 +41,11 @@ Proof. intros. now apply Bool.eqb_prop. Qed.
 Class SfEq (A B : Type) := sf_eqb : A -> B -> bool.
 #[export] Instance SfEq_N : SfEq N N := N.eqb.
 #[export] Instance SfEq_bool : SfEq bool bool := Bool.eqb.
+#[export] Instance SfEq_unit : SfEq unit unit := fun _ _ => true.
 #[export] Instance SfEq_opt : SfEq (option N) (option N) := opt_eqb.
 #[export] Instance SfEq_res {A B} `{SfEq A B} : SfEq (res A) (res B) :=
-  fun a b => match a, b with Ok x, Ok y => sf_eqb x y | Panic, Panic => true | _, _ => false end.
+  fun a b => match a, b with Ok x, Ok y => sf_eqb x y | Panic, Panic => true | Err _, Err _ => true | _, _ => false end.
+(* (error payloads are not compared: the translated functions never build one themselves) *)
 #[export] Instance SfEq_res_l {A B} `{SfEq A B} : SfEq (res A) B | 10 :=
   fun a b => match a with Ok x => sf_eqb x b | _ => false end.
 #[export] Instance SfEq_res_r {A B} `{SfEq A B} : SfEq A (res B) | 10 :=
